@@ -139,6 +139,65 @@ def raised_todo_keys() -> tuple[list[str], int]:
     return lits, by_name
 
 
+def walker_children() -> dict[str, list[str]]:
+    """the node classes whose instances ASTWalker.__walk visits as children of a module, of a class, of an enum and of an
+    __init__ function, and the base-class names that make a class an enum (read off the isinstance chain of __walk and
+    __is_enum; any other shape is refused)"""
+    tree = _parse("api_analyzer/_ast_walker.py")
+    walk = _find_func(tree, "__walk")
+    is_enum = _find_func(tree, "__is_enum")
+    if walk is None or is_enum is None:
+        raise TranslatorError("translator cannot find ASTWalker.__walk / __is_enum")
+
+    def isinstance_of(test: ast.AST) -> str | None:
+        t = test.values[0] if isinstance(test, ast.BoolOp) and isinstance(test.op, ast.And) else test
+        if (isinstance(t, ast.Call) and isinstance(t.func, ast.Name) and t.func.id == "isinstance" and len(t.args) == 2
+                and isinstance(t.args[0], ast.Name) and t.args[0].id == "node" and isinstance(t.args[1], ast.Name)):
+            return t.args[1].id
+        return None
+
+    def str_set(n: ast.AST) -> list[str] | None:
+        if isinstance(n, ast.Set) and all(isinstance(e, ast.Constant) and isinstance(e.value, str) for e in n.elts):
+            return sorted(e.value for e in n.elts)  # type: ignore[union-attr]
+        return None
+    out: dict[str, list[str]] = {}
+    for node in ast.walk(walk):
+        if not isinstance(node, ast.If):
+            continue
+        cls = isinstance_of(node.test)
+        if cls == "MypyFile":
+            sets = [x for n in ast.walk(ast.Module(body=node.body, type_ignores=[])) if (x := str_set(n)) is not None]
+            if len(sets) != 1:
+                raise TranslatorError("translator: the module branch of __walk has not exactly one set of class names")
+            out["module"] = sets[0]
+        elif cls == "ClassDef" and "class" not in out:
+            ifexps = [n for n in ast.walk(ast.Module(body=node.body, type_ignores=[])) if isinstance(n, ast.IfExp)]
+            if len(ifexps) != 1 or str_set(ifexps[0].body) is None or str_set(ifexps[0].orelse) is None:
+                raise TranslatorError("translator: the class branch of __walk is not `A if self.__is_enum(node) else B`")
+            t = ifexps[0].test
+            if not (isinstance(t, ast.Call) and isinstance(t.func, ast.Attribute) and t.func.attr.endswith("__is_enum")):
+                raise TranslatorError("translator: the class branch of __walk does not test __is_enum")
+            out["enum"] = str_set(ifexps[0].body)  # type: ignore[assignment]
+            out["class"] = str_set(ifexps[0].orelse)  # type: ignore[assignment]
+        elif cls == "FuncDef":
+            test_src = ast.unparse(node.test)
+            if '"__init__"' not in test_src and "'__init__'" not in test_src:
+                raise TranslatorError("translator: the function branch of __walk is not restricted to __init__")
+            cmps = [n for n in ast.walk(ast.Module(body=node.body, type_ignores=[])) if isinstance(n, ast.Compare)
+                    and len(n.ops) == 1 and isinstance(n.ops[0], ast.Eq) and isinstance(n.comparators[0], ast.Constant)]
+            if len(cmps) != 1:
+                raise TranslatorError("translator: the function branch of __walk has not exactly one class-name comparison")
+            out["init"] = [cmps[0].comparators[0].value]  # type: ignore[attr-defined]
+    if set(out) != {"module", "class", "enum", "init"}:
+        raise TranslatorError(f"translator: __walk branches found: {sorted(out)}")
+    bases = [n for n in ast.walk(is_enum) if isinstance(n, ast.Tuple) and n.elts and all(
+        isinstance(e, ast.Constant) and isinstance(e.value, str) for e in n.elts)]
+    if len(bases) != 1:
+        raise TranslatorError("translator cannot read the enum base names of __is_enum")
+    out["enum_bases"] = [e.value for e in bases[0].elts]  # type: ignore[attr-defined]
+    return out
+
+
 def todo_prefix() -> str:
     tree = _parse("stubs_generator/_stub_string_generator.py")
     f = _find_func(tree, "_create_todo_msg") or tree
@@ -431,6 +490,12 @@ def generate() -> str:
     w(f"Definition t_indentation : str := {coq_str(indentation())}.")
     w("Definition t_todo_messages : list (str * str) := [" + "; ".join(f"({coq_str(k)}, {coq_str(v)})" for k, v in todo) + "].")
     w(f"Definition t_todo_prefix : str := {coq_str(todo_prefix())}.")
+    wc = walker_children()
+    w(f"Definition t_walker_module_children : list str := {coq_list(wc['module'])}.")
+    w(f"Definition t_walker_class_children : list str := {coq_list(wc['class'])}.")
+    w(f"Definition t_walker_enum_children : list str := {coq_list(wc['enum'])}.")
+    w(f"Definition t_walker_init_children : list str := {coq_list(wc['init'])}.")
+    w(f"Definition t_enum_base_names : list str := {coq_list(wc['enum_bases'])}.")
     rk, by_name = raised_todo_keys()
     w(f"Definition t_raised_todo_literals : list str := {coq_list(rk)}.")
     w(f"Definition t_raised_todo_by_name_sites : nat := {by_name}.")
